@@ -83,13 +83,13 @@ const F64_VALUES: &[f64] = &[
     18446744073709551616.0, 1e19, -1e19, 3.4028234663852886e38, 3.4028235677973362e38,
     3.4028235677973366e38, 1e39, -1e39, f64::MAX, f64::MIN, f64::MIN_POSITIVE, 5e-324, -5e-324, 1e-40,
     1.401298464324817e-45, 7.006492321624085e-46, 7.006492321624087e-46, 2.1019476964872256e-45, 0.1,
-    0.3333333333333333, 1e15, 123456789.0, f64::NAN, f64::INFINITY, f64::NEG_INFINITY,
+    0.3333333333333333, 1e15, 123456789.0, f64::NAN, -f64::NAN, f64::INFINITY, f64::NEG_INFINITY,
 ];
 const F32_VALUES: &[f32] = &[
     0.0, -0.0, 1.0, -1.0, 0.5, -1.5, 2.5, 0.125, 127.0, 128.0, 255.0, 255.5, 256.0, -128.0, -129.0, 65536.0,
     16777216.0, 2147483648.0, -2147483648.0, 2147483520.0, 4294967296.0, 9223372036854775808.0,
     -9223372036854775808.0, 9223371487098961920.0, 18446744073709551616.0, 1e19, f32::MAX, f32::MIN,
-    f32::MIN_POSITIVE, 1e-45, -1e-45, 1e-40, 0.1, 0.33333334, 123456.0, f32::NAN, f32::INFINITY, f32::NEG_INFINITY,
+    f32::MIN_POSITIVE, 1e-45, -1e-45, 1e-40, 0.1, 0.33333334, 123456.0, f32::NAN, -f32::NAN, f32::INFINITY, f32::NEG_INFINITY,
 ];
 
 fn simple_display(x: f64, single: bool) -> bool {
